@@ -335,7 +335,8 @@ def keep_story(k0, k1, k2, k3, final_nl):
         first_block_with_info = True
         if first_block_with_info:
             lo, hi = a, b
-            if is_own_comment_line(lines[a]):
+            header_is_multi = MULTI or not STYLE.can_handle_single()
+            if not header_is_multi and is_own_comment_line(lines[a]):
                 # single-line form: the block is the maximal run of the style's comment lines around it
                 while lo > 0 and is_own_comment_line(lines[lo - 1]):
                     lo -= 1
